@@ -7,6 +7,7 @@ import pyModeS as pms  # noqa: F401  (path check)
 from pyModeS import py_common
 from ref import cpr
 from vlib import dual
+from vlib import variants
 from vlib import volume
 from vlib.core import Leg, call
 
@@ -17,7 +18,7 @@ RULE = ("latitudes: the full 0.0005-degree grid over [-90,90] (blocks of 500 poi
         "values printed in DO-260B), either neighbour accepted within 1e-9 deg of a transition; evenness and monotonicity on "
         "every block; both py_common.cprNL and the emulated working-tree c_common.cprNL. non-trivial = latitude within "
         "0.02 deg of a transition or |lat| >= 86.5 or |lat| < 1e-6"
-        ' Also: whole-degree latitudes passed as Python ints, 140 000 / 1.3 million distinct latitudes in a row in one process (leg volume).')
+        ' Also: whole-degree latitudes passed as Python ints, 140 000 / 1.3 million distinct latitudes in a row in one process (leg volume), the first cprNL calls of a freshly imported package made by four threads at once (leg first_use).')
 ASSUMPTIONS = ["the Cython twin is observed through /verif/pyxemu (no Cython compiler on the image); calibrated against the pre-built binary in C15",
                "reference transition latitudes computed in float64 (error ~1e-14 deg) and checked against the 8-decimal DO-260B table"]
 
@@ -216,7 +217,20 @@ def vol_step(a, b, k):
     return judge(impl("py"), lat)
 
 
+
+# ---------------------------------------------------------------- first calls of a freshly imported package, four threads at once
+def first_jobs(rng):
+    jobs = []
+    for _ in range(40):
+        k = rng.randrange(len(cpr.TRANS_LIST) - 1)
+        lat = (cpr.TRANS_LIST[k] + cpr.TRANS_LIST[k + 1]) / 2 + rng.uniform(-0.05, 0.05)   # well inside a zone
+        lat = rng.choice([lat, -lat])
+        jobs.append(("common.cprNL", (lat,), ("ok", cpr.NL(lat))))
+    return jobs
+
+
 LEGS = [
+    variants.first_use_leg(first_jobs),
     volume.leg(vol_step, 140000, 1300000, "140 000 (thorough: 1.3 million per process) distinct latitudes through cprNL in one process"),
     Leg("single_precision", chk_single, enum=enum_single, exhaustive=False,
         doc="numpy.float32 / float64 scalar latitudes: the 600 single-precision neighbours of every transition, 0, 87, 90, judged at their exact value"),
